@@ -172,11 +172,15 @@ func runOne(c *mon.C, shapes []gen.Shape, side ref.Side, ext bool, b bad, withTa
 
 	entries := runEntries
 	if maxFrame > 0 {
-		entries = []string{"reader"}
+		// (the size limit is a resource bound of its own: it holds with the RFC header checks switched off too)
+		entries = []string{"reader", "reader-skipcheck"}
 	}
 	ps := xport.Plans(c.Rng.Int63(), marks)
 	for ei, entry := range entries {
 		o := drive.Opts{Entry: entry, Side: side, Extended: ext, MaxFrameSize: maxFrame}
+		if entry == "reader-skipcheck" {
+			o.Entry, o.SkipCheck = "reader", true
+		}
 		if entry == "reader-ctlhandler" {
 			o.Entry, o.Intermediate, o.CheckUTF8 = "reader", 3, true
 		}
